@@ -57,6 +57,15 @@ FPValues16 == {LimbsOf(VFPExpandImm(i, 16)) : i \in 0..255}
 FPValues32 == {LimbsOf(VFPExpandImm(i, 32)) : i \in 0..255}
 FPValues64 == {LimbsOf(VFPExpandImm(i, 64)) : i \in 0..255}
 FPSet(N) == IF N = 16 THEN FPValues16 ELSE IF N = 32 THEN FPValues32 ELSE FPValues64
+(* Membership without enumerating: VFPExpandImm copies the bits of imm8 to fixed positions, so the only        *)
+(* candidate pre-image of a pattern is read off those positions (theorem FPCandInverse in A64ImmGen:            *)
+(* FPCand(VFPExpandImm(i, N), N) = i, hence  v \in FPSet(N)  <=>  VFPExpandImm(FPCand(v, N), N) = v).           *)
+FPCand(bits, N) == LET F == N - (IF N = 16 THEN 5 ELSE IF N = 32 THEN 8 ELSE 11) - 1
+                   IN 128 * bits[N] + 64 * bits[N - 2] + 32 * bits[F + 2] + 16 * bits[F + 1]
+                      + 8 * bits[F] + 4 * bits[F - 1] + 2 * bits[F - 2] + bits[F - 3]
+FPMember(v, N) == LET bits == BitsOfLimbs(v)
+                  IN /\ \A k \in (N + 1)..64 : bits[k] = 0
+                     /\ VFPExpandImm(FPCand(bits, N), N) = Slice(bits, N - 1, 0)
 (* The number an imm8 denotes, independent of the precision: (-1)^a * (16 + efgh)/16 * 2^e, e in -3..4          *)
 FPNumber(imm8) == LET b == [k \in 0..7 |-> (imm8 \div 2^k) % 2]
                       cd == b[4] + 2 * b[5]
@@ -156,7 +165,7 @@ VAddSub(o) ==
           ELSE ""
 
 VFp8H(o) ==
-  LET member == o.v \in FPSet(o.w)
+  LET member == FPMember(o.v, o.w)
   IN IF o.ok /\ ~member THEN "accepts-unencodable"
      ELSE IF ~o.ok /\ member THEN "refuses-encodable"
      ELSE IF o.ok /\ o.w = 64 /\ (o.imm8 > 255 \/ LimbsOf(VFPExpandImm(o.imm8, 64)) # o.v) THEN "decode"
@@ -164,7 +173,7 @@ VFp8H(o) ==
 
 (* fmov Vd(3), #double.  Scalar: 0|0|0|11110|ftype|1|imm8|100|00000|Rd ; vector: 0|Q|op|0111100000|a|b|c|1111|o2|1|d|e|f|g|h|Rd *)
 VFmov(o) ==
-  LET member == o.v \in FPValues64
+  LET member == FPMember(o.v, 64)
   IN IF o.ok /\ ~member THEN "accepts-unencodable"
      ELSE IF ~o.ok /\ member THEN "refuses-encodable"
      ELSE IF ~o.ok THEN ""
